@@ -101,11 +101,13 @@ def acc_p(name):
     return None
 
 
-def coq_acc(name):
+def coq_accname(name):
     p = acc_p(name)
-    if p is not None:
-        return f"(APctl {coq_q(p)}, {coq_bytes(name)})"
-    return f"({ACC_COQ[name]}, [])"
+    return f"(APctl {coq_q(p)})" if p is not None else ACC_COQ[name]
+
+
+def coq_acc(name):
+    return f"({coq_accname(name)}, {coq_bytes(name) if acc_p(name) is not None else '[]'})"
 
 
 def coq_names(l):
@@ -130,6 +132,8 @@ def coq_spec(s):
         return f"(SCountDistinctU {coq_names(s['gs'])})"
     if k == "count-similar":
         return f"(SCountSimilar {coq_names(s['gs'])} {coq_bytes(s['out'])})"
+    if k == "dsl":
+        return f"(SAcc {coq_bool(s['interp'])} {coq_accname(s['acc'])} {coq_names(s['xs'])})"
     if k == "stats1":
         accs = coq_list([coq_acc(a) for a in s["accs"]])
         if s.get("w"):
@@ -140,6 +144,8 @@ def coq_spec(s):
 
 def mlr_args(s):
     k = s["verb"]
+    if k == "dsl":
+        return ["--ijsonl", "--ojsonl", "put", "-q", "<DSL_PROG>", json.dumps(s.get("dsl"))]
     if k == "count":
         a = ["count"] + (["-g", ",".join(s["gs"])] if s["gs"] is not None else []) + (["-n"] if s["n"] else [])
         return a + (["-o", s["out"]] if s["out"] != "count" else [])
@@ -471,7 +477,8 @@ PLAIN = ["count", "sum", "min", "max", "mode", "antimode", "distinct_count", "nu
 def gen_case(rng, tier):
     kind = rng.choice(["stats1", "stats1", "stats1", "stats1", "stats1p", "stats1p", "stats1w", "count", "uniq", "count-distinct-u", "count-similar"])
     nrec = rng.choice([0, 1, 2, 3, 5, 8, 12, 20] if tier == "quick" else [0, 1, 2, 3, 5, 8, 12, 20, 40])
-    gvals = rng.choice([["pan", "wye"], ["pan", "wye", "zee", ""], ["1", "1.0", "01", "pan"], ["p"], ["pan", "wye", "zee", "sky", "elk", "fox"]])
+    gvals = rng.choice([["pan", "wye"], ["pan", "wye", "zee", ""], ["1", "1.0", "01", "pan"], ["p"], ["pan", "wye", "zee", "sky", "elk", "fox"],
+                        ["x,y", "x", "y", "y,z", "z"]])
     ng = rng.choice([0, 1, 1, 2])
     gs = rng.sample(GKEYS, ng)
     if kind.startswith("stats1"):
@@ -523,6 +530,142 @@ def fmt_p(half):
 def in_group_domain(s, recs):
     """property domain used for the correspondence with the model: group-by texts free of the joiner"""
     return True
+
+
+# ------------------------------------------------------------------ DSL statistics functions (one mlr process for all cases)
+DSL_PROG = """
+func r(str f, xs, p, il) {
+  if (f == "count") {return count(xs)}
+  elif (f == "sum") {return sum(xs)}
+  elif (f == "mean") {return mean(xs)}
+  elif (f == "var") {return variance(xs)}
+  elif (f == "stddev") {return stddev(xs)}
+  elif (f == "meaneb") {return meaneb(xs)}
+  elif (f == "skewness") {return skewness(xs)}
+  elif (f == "kurtosis") {return kurtosis(xs)}
+  elif (f == "minlen") {return minlen(xs)}
+  elif (f == "maxlen") {return maxlen(xs)}
+  elif (f == "null_count") {return null_count(xs)}
+  elif (f == "distinct_count") {return distinct_count(xs)}
+  elif (f == "mode") {return mode(xs)}
+  elif (f == "antimode") {return antimode(xs)}
+  elif (f == "median") {return median(xs, {"interpolate_linearly": il})}
+  elif (f == "percentile") {return percentile(xs, p, {"interpolate_linearly": il})}
+  elif (f == "percentiles") {return percentiles(xs, [p], {"il": il, "oa": true})[1]}
+  elif (f == "percentiles_map") {return percentiles(xs, [p], {"il": il})[string(p)]}
+  elif (f == "sort_collection") {return sort_collection(xs)}
+  else {return "nosuch"}
+}
+print json_stringify(r($f, $xs, $p, $il));
+"""
+DSL_ACC = ["count", "sum", "mean", "var", "stddev", "meaneb", "skewness", "kurtosis", "minlen", "maxlen", "null_count", "distinct_count", "mode", "antimode"]
+
+
+def dsl_cases(ctx, n):
+    rng = ctx.rng
+    cases = []
+    for _ in range(n):
+        xs = [gen_value(rng, "small") for _ in range(rng.choice([1, 2, 3, 4, 5, 8, 13, 20]))]
+        xs = [x for x in xs if numq(x) is not None] or ["3"]
+        if rng.random() < 0.15:
+            xs = [x for x in xs if classify(x)[0] == "int"] or ["7"]
+        f = rng.choice(DSL_ACC + ["median", "percentile", "percentile", "percentiles", "percentiles_map", "sort_collection"])
+        il = rng.random() < 0.4
+        half = rng.randint(0, 200)
+        if f in ("percentile", "percentiles") and not il and rng.random() < 0.2:
+            half = rng.choice([-10, -1, 201, 300, 1000])       # outside 0..100: the non-interpolated form clamps
+        if f == "percentiles_map":
+            half -= half % 2                                    # map key is string(p): keep p integral
+        cases.append({"f": f, "xs": xs, "p": Fraction(half, 2), "il": il})
+    return cases
+
+
+def run_dsl(ctx, cases):
+    def num(t):
+        return t
+    lines = []
+    for c in cases:
+        p = c["p"]
+        ptxt = str(p.numerator) if p.denominator == 1 else "%d.5" % (p.numerator // 2) if p >= 0 else "-%d.5" % ((-p).numerator // 2)
+        lines.append('{"f": "%s", "xs": [%s], "p": %s, "il": %s}' % (c["f"], ", ".join(c["xs"]), ptxt, "true" if c["il"] else "false"))
+    st, out, err = mlr_run(ctx, ["--ijsonl", "--ojsonl", "put", "-q", DSL_PROG], ("\n".join(lines) + "\n").encode(), timeout=120)
+    return classify_run(st, err), out.decode("utf-8", "replace").splitlines(), err.decode("utf-8", "replace")[-800:]
+
+
+def check_dsl(ctx, terms, meta, oracle_bad):
+    n = 250 if ctx.tier == "quick" else 3000
+    cases = dsl_cases(ctx, n)
+    cls, lines, err = run_dsl(ctx, cases)
+    ctx.cov["dsl_functions"] = {"cases": len(cases), "status": cls}
+    if cls != "ok" or len(lines) != len(cases):
+        ctx.violation({"broken": "dsl-functions-run", "class": "dsl-" + cls, "observed": err, "lines": len(lines), "cases": len(cases)}, found_input=(cls != "ok"))
+        return
+    for c, line in zip(cases, lines):
+        ctx.count(("dsl", c["f"], tuple(c["xs"]), c["p"], c["il"]))
+        ctx.dist("dsl:" + c["f"] + (":il" if c["il"] else ""))
+        try:
+            v = json.loads(line)
+        except Exception:
+            v = line
+        inp = {"f": c["f"], "xs": c["xs"], "p": str(c["p"]), "il": c["il"]}
+        if c["f"] == "sort_collection":
+            got = [Fraction(str(x)) if not isinstance(x, str) else None for x in v] if isinstance(v, list) else None
+            want = sorted(numq(x) for x in c["xs"])
+            if got != want:
+                oracle_bad.append(({"verb": "dsl", "dsl": inp}, [], [[("r", line)]], {"what": "sort_collection is not the sorted permutation", "observed": line}))
+            continue
+        t = v if isinstance(v, str) else line.strip()
+        name = {"percentile": "p", "percentiles": "p", "percentiles_map": "p"}.get(c["f"], c["f"])
+        accname = c["f"]
+        if name == "p":
+            p = c["p"]
+            accname = "p" + (str(p.numerator) if p.denominator == 1 else str(float(p)))
+        if c["f"] in ("percentile", "percentiles", "percentiles_map") and not (0 <= c["p"] <= 100):
+            # outside 0..100 the non-interpolated percentile is clamped to the extreme element
+            sv = sort_vals(c["xs"])
+            e = ("val", sv[0] if c["p"] < 0 else sv[-1])
+        else:
+            e = expect_acc(accname if name != "p" else "p%s" % (c["p"] if c["p"].denominator == 1 else float(c["p"])), c["xs"], c["il"])
+        s = {"verb": "dsl", "acc": accname if name != "p" else "p%s" % (c["p"] if c["p"].denominator == 1 else float(c["p"])), "xs": c["xs"], "interp": c["il"], "dsl": inp}
+        if not matches(e, t):
+            oracle_bad.append((s, [], [[("r", t)]], {"what": "dsl function value", "expected": [str(x) for x in e], "observed": t}))
+        if 0 <= c["p"] <= 100 or name != "p":
+            terms.append(f"({coq_spec(s)},\n [],\n {coq_obs([[('r', t)]])})")
+            meta.append((s, [], [[("r", t)]]))
+
+
+def probe_known(ctx):
+    """witnesses of the defects this check has found on the unchanged tree (classes listed in c10.findings.md); each is re-probed on every run"""
+    # 1. interpolated percentile outside 0..100 indexes past the end of the array
+    st, out, err = mlr_run(ctx, ["-n", "put", 'end{print percentiles([1,2,3,4,5],[200],{"interpolate_linearly":true})}'], b"", timeout=30)
+    cls = classify_run(st, err)
+    ctx.count(("probe", "pctl200"))
+    ctx.cov.setdefault("probes", {})["interpolated_percentile_p200"] = cls
+    if cls != "ok":
+        ctx.violation({"class": "percentile-interpolated-index-out-of-range", "how": "mlr -n put 'end{print percentiles([1,2,3,4,5],[200],{\"interpolate_linearly\":true})}'",
+                       "input": "percentiles([1,2,3,4,5],[200],{\"interpolate_linearly\":true})", "observed": cls + ": " + err.decode("utf-8", "replace")[:300],
+                       "expected": "the value clamped to the last element (5), as the non-interpolated form does; theorem C10_interpolated_percentile_clamps_outside_refuted"})
+    # 3. the grouping key joins the group-by texts with ",": distinct text tuples collide
+    recs = [[("a", "x,y"), ("b", "z"), ("v", "1")], [("a", "x"), ("b", "y,z"), ("v", "2")]]
+    for s in ({"verb": "count", "gs": ["a", "b"], "n": False, "out": "count"},
+              {"verb": "stats1", "accs": ["sum", "count"], "fs": ["v"], "gs": ["a", "b"], "interp": False}):
+        cls, rows, err = run_mlr(ctx, mlr_args(s), recs)
+        ctx.count(("probe", "comma", s["verb"]))
+        d = oracle(s, recs, rows) if cls == "ok" else {"what": cls}
+        ctx.cov["probes"]["comma-collision " + s["verb"]] = "differs" if d else "ok"
+        if d is not None:
+            ctx.violation({"class": "group-key-comma-collision", "args": mlr_args(s), "input": dkvp(recs, ";", ":").decode(), "observed": rows if cls == "ok" else err,
+                           "difference": d, "spec": s, "expected": "two groups (x,y | z) and (x | y,z): groups are formed by the exact texts of the group-by fields; theorem C10_group_key_exact_text_refuted"})
+    # 2. an accumulator (or value field) named twice is fed every value twice
+    recs = [[("x", "3")], [("x", "4")]]
+    for args, fld, want in ((["stats1", "-a", "count,count", "-f", "x"], "x_count", "2"), (["stats1", "-a", "sum", "-f", "x,x"], "x_sum", "7")):
+        cls, rows, err = run_mlr(ctx, args, recs)
+        ctx.count(("probe", tuple(args)))
+        got = dict(rows[0]).get(fld) if cls == "ok" and rows else None
+        ctx.cov["probes"][" ".join(args)] = got
+        if got != want:
+            ctx.violation({"class": "stats1-duplicate-name-double-ingest", "args": args, "input": dkvp(recs, ";", ":").decode(), "observed": rows if cls == "ok" else err,
+                           "expected": f"{fld}={want}"})
 
 
 # ------------------------------------------------------------------ witness classes of genuine defects
@@ -583,6 +726,9 @@ def run(ctx):
             if i in (3, 50, 200, 400):
                 ctx.sample({"args": args, "input": dkvp(recs, ";", ":").decode(), "observed": rows})
         ctx.cov["cli_cross_checked"] = n_cli
+    with ctx.timed("dsl"):
+        check_dsl(ctx, terms, meta, oracle_bad)
+        probe_known(ctx)
     ctx.cov["oracle"] = {"cases": len(meta), "disagreements": len(oracle_bad)}
     if not ok:
         if oracle_bad:
